@@ -440,6 +440,7 @@ def run(facts, rep, ctx):
     R6 = rep.rule("R15.6", "an entry is rejected exactly when address + size exceeds the image (empty files at the very end are accepted)", floor=1)
     bound_decision(facts, rep, R6, par, ppaths)
     best = None
+    sliced = None
     for p in ppaths:
         evs = [e for e in p.events if e["k"] == "call" and e["callee"]]
         sp = [e for e in evs if e["callee"].endswith("Cursor::<T>::set_position")]
@@ -448,6 +449,51 @@ def run(facts, rep, ctx):
         ins = [e for e in evs if e["callee"].endswith("IndexMap::<K, V, S>::insert")]
         if rs and rx and ins:
             best = (p, evs, sp, rs, rx, ins)
+        elif rs and ins and best is None and sliced is None:
+            # the body taken as a slice of the image (`raw[start..end].to_vec()`) instead of seek + read_exact
+            for x in walk(ins[-1]["args"][2]) if len(ins[-1]["args"]) > 2 else ():
+                if x[0] == "call" and "ops::Index" in x[1] and len(x[2]) == 2 and strip_refs(x[2][0])[0] == "param" and strip_refs(x[2][1])[0] == "agg" \
+                        and (strip_refs(x[2][1])[2] or "").endswith("ops::Range") and len(strip_refs(x[2][1])[4]) == 2:
+                    sliced = (p, evs, sp, rs, ins, strip_refs(x[2][1])[4])
+    if best is None and sliced is not None:
+        p, evs, sp, rs, ins, (st_, en_) = sliced
+
+        def field_of_(t):
+            for x in walk(t):
+                if x[0] == "field" and len(x) > 4 and x[4] and str(x[4]).startswith("mila::fe9_arc::"):
+                    return x[2]
+            return None
+        i_name = evs.index(rs[0])
+        before_name = [e for e in sp if evs.index(e) < i_name]
+        if before_name and field_of_(before_name[-1]["args"][1]) == "name_address":
+            rep.ok(R5, {"seek": "name_address before reading the name"})
+        elif before_name:
+            rep.violation(R5, par.name, "seek-name", "the name is read at %s, not at the record's name address" % fmt(before_name[-1]["args"][1])[:50], pw)
+        else:
+            rep.inconc(R5, "parse: where the name read is positioned was not recognised")
+        a_s, a_e = affine(st_, None), affine(en_, None)
+        fa = [k for k in (a_s[0] if a_s else {}) if field_of_(k) == "file_address" or any(x[0] == "field" and x[2] == "file_address" for x in walk(k))]
+        names_in = lambda t: set(x[2] for x in walk(t) if x[0] == "field" and isinstance(x[2], str) and x[2] in ("file_address", "file_size_unpadded", "name_address"))
+        if a_s is not None and a_e is not None and len(a_s[0]) == 1 and fa and a_s[1] == 0:
+            rep.ok(R5, {"body_from": "image[file_address ..]"})
+            d = {k: a_e[0].get(k, 0) - a_s[0].get(k, 0) for k in set(a_s[0]) | set(a_e[0])}
+            d = {k: v for k, v in d.items() if v}
+            if len(d) == 1 and list(d.values()) == [1] and "file_size_unpadded" in names_in(list(d)[0]) and a_e[1] == a_s[1]:
+                rep.ok(R5, {"body_length": "file_size_unpadded"})
+            elif "file_size_unpadded" not in names_in(en_) and names_in(en_):
+                rep.violation(R5, par.name, "body-length", "the body is image[%s .. %s]: its end does not depend on the record's size" % (fmt(st_)[:40], fmt(en_)[:40]), pw)
+            else:
+                rep.inconc(R5, "parse: the length of the sliced body (%s .. %s) was not recognised" % (fmt(st_)[:30], fmt(en_)[:30]))
+        elif names_in(st_) and "file_address" not in names_in(st_):
+            rep.violation(R5, par.name, "seek-file", "the body is sliced from %s, not from the record's file address" % fmt(st_)[:50], pw)
+        else:
+            rep.inconc(R5, "parse: the sliced range of the body was not recognised (%s .. %s)" % (fmt(st_)[:40], fmt(en_)[:40]))
+        rt = par.local_ty(0)
+        if "indexmap::IndexMap<" in rt and any(x == rs[0]["val"] for x in walk(ins[-1]["args"][1])):
+            rep.ok(R5, {"result": "IndexMap filled in record order with (name, body)"})
+        else:
+            rep.inconc(R5, "parse: the (name, body) pair inserted was not recognised")
+        return
     if best is None:
         # names read in a loop that never positions the cursor: they are taken back to back from wherever the first
         # one was, and the recorded name address of every later entry is ignored
@@ -512,6 +558,9 @@ def bound_decision(facts, rep, R6, par, ppaths):
             return env[t[2]]
         if t[0] == "call" and t[1].rsplit("::", 1)[-1] == "len" and t[2] and strip_refs(t[2][0])[0] == "param":
             return env[L]
+        if t[0] == "call" and t[1].rsplit("::", 1)[-1] == "len" and t[2] and any(
+                x[0] == "call" and x[1].rsplit("::", 1)[-1] in ("get_ref", "into_inner") and "Cursor" in x[1] for x in walk(t[2][0])):
+            return env[L]      # the image as held by the cursor that reads it
         if t[0] == "un" and t[1] == "PtrMetadata":
             return env[L]
         if t[0] == "call" and t[1].rsplit("::", 1)[-1] in ("from", "into") and len(t[2]) == 1:
